@@ -46,7 +46,7 @@ RULE = ('histories of 1-12 queries on ONE object: FluidMixture of 1-5 database c
         'get_values (scalar / list / ndarray depths inside, above and below the profile; list or str names incl. unknown names), '
         'get_units, buoyancy_frequency; every (method, state) pair is re-asked later in the history with probability 1/2; '
         'Blowout: initial parameters from 3 substances x 3-5 water data x 3 current data, 1-8 update calls drawn from all 13 update '
-        'methods (first every method once as a single-call sequence and the oil bins switched off / on / off-and-back for a live oil), 40 % of the random sequences switch num_oil_elements or '
+        'methods incl. update_water_data with ambient.Profile objects, None and cold / warm surface-water dicts (first every method once as a single-call sequence, the oil bins switched off / on / off-and-back for a live oil, six sequences water dict -> ... -> None); the fresh Blowout is built before AND after each history; a canonical reference set of fresh objects is re-evaluated >= 6 times per run, 40 % of the random sequences switch num_oil_elements or '
         'num_gas_elements to zero (half of them back). A history is '
         'non-trivial when its (object kind, method sequence, state pattern) is new')
 LEVEL_NOTE = ('theorems about hand-written store / flag models (all histories, by induction); for the repaired variants of coefs and get_values the '
@@ -903,9 +903,12 @@ def fp_diff(a, b, tol=1e-12):
 def blowout_sequences(ctx, r, n, lines, owners):
     from tamoc import blowout
     prfs = [S.synthetic_profile(r, z_max=1500.) for _ in range(2)]
-    waters = prfs + [None, {'temperature': 273.15 + r.uniform(8., 25.), 'salinity': r.uniform(33., 36.)}]
-    if not ctx.thorough:
-        waters = prfs + [None]
+    # surface-water dicts: temperature in deg C (ambient.get_world_ocean adds 273.15), a cold one (clips the upper
+    # world-ocean temperatures) with a scaled salinity, and a warm one
+    waters = prfs + [None, {'temperature': r.uniform(3., 10.), 'salinity': r.uniform(33., 34.5)},
+                     {'temperature': r.uniform(18., 26.), 'salinity': r.uniform(35., 36.5)}]
+    I_NONE, I_COLD = len(prfs), len(prfs) + 1
+    ctx.blow_dict_then_none = 0
     currents = [np.array([0.05, 0., 0.]), 0.12, np.array([0.08, -0.03])]
     calls = []
     orig_get_oil = blowout.dbm_utilities.get_oil
@@ -918,6 +921,8 @@ def blowout_sequences(ctx, r, n, lines, owners):
     ctx.blow_last, ctx.blow_flips = set(), 0
     try:
         for seq in range(n):
+            if seq and seq % 8 == 0:
+                check_reference(ctx, 'after %d Blowout sequences' % seq)
             init = dict(z0=r.uniform(200., 1400.), d0=r.uniform(0.05, 0.4), substance=r.randrange(len(SUBSTANCES)),
                         q_oil=r.uniform(2000., 50000.), gor=r.choice([0., r.uniform(200., 2500.), r.uniform(200., 2500.)]),
                         x0=0., y0=0., u0=None, phi_0=-math.pi / 2., theta_0=0., num_gas_elements=r.randint(1, 5),
@@ -948,6 +953,16 @@ def blowout_sequences(ctx, r, n, lines, owners):
                 ops = [[('num_oil_elements', 0)], [('num_oil_elements', r.randint(1, 4))],
                        [('num_oil_elements', 0), ('num_oil_elements', r.randint(1, 4))],
                        [('q_oil', r.uniform(5000., 40000.)), ('num_oil_elements', 0)]][k]
+            elif seq < len(OPS) + 10:
+                # sweep: the water data replaced by a cold surface-water dict and later by None (world-ocean average), other
+                # calls in between / after
+                init['water'] = r.choice([I_NONE, r.randrange(len(prfs))])
+                init['num_oil_elements'] = max(init['num_oil_elements'], 1)
+                mid = [(o, op_value(r, o, waters, currents)) for o in r.sample([o for o in OPS if o not in ('water_data', 'num_oil_elements')], r.randint(0, 2))]
+                ops = [('water_data', I_COLD)] + mid + [('water_data', I_NONE)]
+                if r.random() < 0.5:
+                    o = r.choice(['release_depth', 'orifice_diameter', 'current_data'])
+                    ops.append((o, op_value(r, o, waters, currents)))
             elif r.random() < 0.4:
                 which = r.choice(['num_oil_elements', 'num_gas_elements'])
                 pos = r.randrange(len(ops) + 1)
@@ -979,17 +994,18 @@ def blowout_sequences(ctx, r, n, lines, owners):
                 final[OP_ATTR[op]] = v
             # ---- the FRESH object first: if the final (or the initial) parameters are no valid scenario the sequence is
             #      skipped (counted, bounded by the ceiling obligation of run())
+            def build_fresh():
+                track = final['track']
+                f = build(dict(final, track=True))
+                if track is not True:
+                    f.update_track_particles(track)     # `track` is not a constructor argument
+                    with S.quiet():
+                        f._update()
+                return f
             try:
                 del calls[:]
-                track = final.pop('track')
-                fresh = build(dict(final, track=True))
-                if track is not True:
-                    fresh.update_track_particles(track)     # `track` is not a constructor argument
-                    with S.quiet():
-                        fresh._update()
-                fpf = blowout_fingerprint(fresh)
-                fresh_call = calls[-1]
-                final['track'] = track
+                fresh0 = build_fresh()                      # the fresh object BEFORE the history is played
+                fp0 = blowout_fingerprint(fresh0)
                 del calls[:]
                 b = build(init)
             except Exception as e:
@@ -1024,6 +1040,11 @@ def blowout_sequences(ctx, r, n, lines, owners):
                 refreshed_calls = calls[ncalls0:]
                 last_call = calls[-1]
                 fpr = blowout_fingerprint(b)
+                ncalls1 = len(calls)
+                fresh = build_fresh()                       # ... and AFTER it
+                fpf = blowout_fingerprint(fresh)
+                fresh_call = calls[-1]
+                assert len(calls) > ncalls1
             except Exception as e:
                 ctx.evaluations += 1
                 ctx.violation('blowout-history-raised:' + raise_site(e),
@@ -1032,7 +1053,7 @@ def blowout_sequences(ctx, r, n, lines, owners):
                               dict(descr, exception='%s: %s' % (type(e).__name__, str(e)[:200]),
                                    flags_before_refresh=dict(update=bool(getattr(b, 'update', None)), new_oil=bool(getattr(b, 'new_oil', None)),
                                                              q_type=getattr(b, 'q_type', None)),
-                                   fresh_q_type=int(fresh.q_type)))
+                                   fresh_q_type=int(fresh0.q_type)))
                 continue
             ctx.evaluations += 1
             zero0 = init['num_oil_elements'] > 0
@@ -1047,6 +1068,16 @@ def blowout_sequences(ctx, r, n, lines, owners):
             if len([s for s in ctx.samples if 'ops' in s]) < 2:
                 ctx.sample({'initial': descr['initial'], 'ops': descr['ops'], 'mass_flux_updated': fpr['mass_flux'][:3],
                             'mass_flux_fresh': fpf['mass_flux'][:3]})
+            wseq = [v for o, v in ops if o == 'water_data']
+            if any(isinstance(waters[a], dict) and any(waters[b] is None for b in wseq[i + 1:]) for i, a in enumerate(wseq)):
+                ctx.blow_dict_then_none += 1
+                ctx.count('blowout sequence with a surface-water dict followed later by water=None')
+            d0 = fp_diff(fp0, fpf, 0.)
+            if d0:
+                ctx.violation('process-state-leak:Blowout-fresh-before-vs-after:' + d0[0],
+                              'two Blowouts constructed directly with the SAME (final) parameters, one before and one after an update history '
+                              'was played on another object, differ: the history leaked state into the process',
+                              dict(descr, differing={k: (fp0.get(k), fpf.get(k)) for k in d0[:6]}))
             diffs = fp_diff(fpr, fpf)
             if diffs:
                 if flips and 'q_type' in diffs:
@@ -1078,6 +1109,65 @@ def blowout_sequences(ctx, r, n, lines, owners):
                            [float(sub_of(fresh_call[0])), fresh_call[1], fresh_call[2], 0., float(fresh_call[3])], descr))
     finally:
         blowout.dbm_utilities.get_oil = orig_get_oil
+
+
+# ---------------------------------------------------------------------------
+# PROCESS-LEVEL purity: a canonical reference set, re-evaluated on FRESH objects during and after the run
+# ---------------------------------------------------------------------------
+
+REF_DICTS = [{'temperature': 8., 'salinity': 34.5}, {'temperature': 20., 'salinity': 36.}]     # surface T in deg C
+
+
+def reference_set():
+    """answers of freshly built objects that must not depend on anything done before in the process: the world-ocean
+    profile, Blowouts on water=None and on two fixed surface-water dicts, mixture / particle properties from the database.
+    Order: the queries that only READ shared data first."""
+    from tamoc import ambient, blowout, dbm
+    ref = {}
+    with S.quiet():
+        prf = ambient.Profile(None)
+        zs = np.linspace(float(prf.z_min), float(prf.z_max), 10)
+        ref['Profile(None)'] = [float(v) for z in zs for v in prf.get_values(float(z), ['temperature', 'salinity', 'pressure'])]
+        fm = dbm.FluidMixture(['methane', 'ethane', 'n-hexane', 'toluene'])
+        m = np.array([0.4, 0.1, 0.3, 0.2])
+        ref['FluidMixture'] = c09.flat((fm.density(m, 288.15, 2e6), fm.viscosity(m, 288.15, 2e6), fm.fugacity(m, 288.15, 2e6),
+                                                   fm.solubility(m, 288.15, 2e6, 35.), fm.interface_tension(m, 288.15, 35., 2e6),
+                                                   fm.equilibrium(m, 288.15, 2e6)[0]))
+        for fpt in (0, 1, 2):
+            fp = dbm.FluidParticle(['methane', 'ethane', 'n-hexane', 'toluene'], fp_type=fpt)
+            ref['FluidParticle(fp_type=%d)' % fpt] = c09.flat(tuple(c09.norm_out('fluid', 'return_all', fp.return_all(
+                m * 1e-6, 288.15, 2e6, 35., 285., -1))))
+        kw = dict(z0=600., d0=0.2, substance=SUBSTANCES[1], q_oil=20000., gor=800., num_gas_elements=2, num_oil_elements=2,
+                  current=np.array([0.05, 0., 0.]))
+        for name, w in [('Blowout(water=None)', None)] + [('Blowout(water=dict-T%g-S%g)' % (d['temperature'], d['salinity']), dict(d)) for d in REF_DICTS]:
+            b = blowout.Blowout(water=w, **kw)
+            f = blowout_fingerprint(b)
+            ref[name] = c09.flat(tuple(f[k] for k in sorted(f) if isinstance(f[k], (float, list)) and f[k] is not None
+                                       and k != 'oil.composition'))
+    return ref
+
+
+def check_reference(ctx, where):
+    """re-evaluate the reference set on fresh objects; the first evaluation is the baseline"""
+    cur = reference_set()
+    ctx.ref_evals = getattr(ctx, 'ref_evals', 0) + 1
+    if getattr(ctx, 'ref0', None) is None:
+        ctx.ref0 = cur
+        ctx.ref_leaked = set()
+        return
+    for name, v0 in ctx.ref0.items():
+        v1 = cur.get(name)
+        if name in ctx.ref_leaked:
+            continue
+        if v1 is None or not close(list(v1), list(v0), 0.):
+            ctx.ref_leaked.add(name)
+            worst = max([relerr(a, b) for a, b in zip(v0, v1 or []) if math.isfinite(a) and math.isfinite(b)] + [0.])
+            k = [i for i, (a, b) in enumerate(zip(v0, v1 or [])) if not close(a, b, 0.)][:5]
+            ctx.violation('process-state-leak:' + name,
+                          'a freshly built object answers differently from the identical freshly built object at the start of the process: '
+                          'state leaked between unrelated objects (module-level / shared data edited in place)',
+                          dict(reference=name, re_evaluated=where, evaluation_number=ctx.ref_evals, worst_relative_difference=worst,
+                               first_differing_entries=[(i, v0[i], v1[i]) for i in k] if v1 else None))
 
 
 def compare_blowout(own, resp):
@@ -1128,12 +1218,23 @@ def run(ctx, lean_ok):
                'TamocV.Props.C19.blowout_refines_fresh is the one that applies to it', bool(VARIANT['revisit']),
                'q_type is not revisited: the witness of TamocV.Props.C19.not_blowout_refines_fresh reproduces on the real code')
     lines, owners = [], []
+    check_reference(ctx, 'start')                      # baseline, before anything else is built
     mixture_histories(ctx, r, ctx.n(60, 1500))
+    check_reference(ctx, 'after the mixture histories')
     particle_histories(ctx, r, ctx.n(45, 800), lines, owners)
     cache_histories(ctx, r, ctx.n(10, 150))
+    check_reference(ctx, 'after the particle histories')
     profile_histories(ctx, r, ctx.n(40, 800), lines, owners)
     coefs_cases(ctx, r, ctx.n(40, 600), lines, owners)
-    blowout_sequences(ctx, r, ctx.n(17 + 14, 17 + 300), lines, owners)
+    check_reference(ctx, 'after the profile histories')
+    blowout_sequences(ctx, r, ctx.n(23 + 12, 23 + 300), lines, owners)
+    check_reference(ctx, 'end of the run')
+    ctx.oblige('process-level purity: the canonical reference set (Profile(None) at 10 depths, Blowouts on water=None and on two '
+               'surface-water dicts, database mixture / particle properties; fresh objects every time) re-evaluated %d times during the '
+               'run and at its end, compared bit-wise with the evaluation at the start' % (ctx.ref_evals - 1), ctx.ref_evals >= 6,
+               'too few re-evaluations')
+    ctx.oblige('Blowout floor: %d compared sequences contain update_water_data with a surface-water dict followed later by water=None '
+               '(floor 5)' % ctx.blow_dict_then_none, ctx.blow_dict_then_none >= 5, 'generator floor not reached')
     ob = ctx.objects
     ctx.oblige('objects built with user_data overriding C_pen / C_pen_T (non-zero, first component included): %d of %d mixtures, '
                '%d of %d fluid particles (floor 30 %% each)' % (ob.get('mixture-user-C_pen', 0), ob.get('mixture', 0),
